@@ -17,3 +17,37 @@ def wf_fee(f):
 def in_gamma_fee(f, c):
     """c in gamma(f): gamma(FeeValue(False, v)) = [0, v];  gamma(FeeValue(True, _)) = [0, 272000] (hypothesis H_fee)."""
     return And(c >= 0, If(f.is_unknown, c <= MAX_GROUP_COST_BOUND, c <= f.value))
+
+
+# ---- addresses (C08) ---------------------------------------------------------------------------------------------
+ANY_ADDRESS = "ANY_ADDRESS"
+NO_ADDRESS = "NO_ADDRESS"
+CREATOR_ADDRESS = "CREATOR_ADDRESS"
+REAL_ZERO_ADDRESS = "AAAAAAAAAAAAAAAAAAAAAAAAAAAAAAAAAAAAAAAAAAAAAAAAAAAAY5HFKQ"   # 32 zero bytes + checksum (AVM)
+
+
+def wf_addr(S):
+    """marker tokens stand alone:  ANY in S => S = {ANY};  NO in S => S = {NO}"""
+    from pyvc.values import V, VSet
+    import z3
+    if isinstance(S, V):
+        one = lambda tok: VSet(S.elem, z3.Store(z3.K(z3.StringSort(), z3.BoolVal(False)), z3.StringVal(tok), z3.BoolVal(True)))
+        from pyvc.dsl import Eq
+        return And(Implies(In(ANY_ADDRESS, S), Eq(S, one(ANY_ADDRESS))), Implies(In(NO_ADDRESS, S), Eq(S, one(NO_ADDRESS))))
+    return (ANY_ADDRESS not in S or S == {ANY_ADDRESS}) and (NO_ADDRESS not in S or S == {NO_ADDRESS})
+
+
+def in_gamma_addr(S, a, v):
+    """non-zero address a (symbolic: its code; native: its string) is admitted by the abstract set S in visit v:
+    'any address', or a literal listed in S, or the creator when S holds the creator token.  NO_ADDRESS and the
+    SOME_ADDRESS_* tokens (comparands evaluated at run time, outside the claim) contribute nothing."""
+    from pyvc.values import V, VStr, VInt, VBool
+    if isinstance(S, V):
+        import z3
+        from spec.avm_axioms import ADDRDECODE, ADDRCODE, CREATOR
+        s = ADDRDECODE(a.term)
+        is_token = z3.Or(s == ANY_ADDRESS, s == NO_ADDRESS, s == CREATOR_ADDRESS, z3.PrefixOf(z3.StringVal("SOME_ADDRESS"), s))
+        return Or(In(ANY_ADDRESS, S), And(VBool(ADDRCODE(s) == a.term), Not(VBool(is_token)), In(VStr(s), S)),
+                  And(In(CREATOR_ADDRESS, S), VBool(a.term == CREATOR(v.term))))
+    return ANY_ADDRESS in S or (a in S and a not in (ANY_ADDRESS, NO_ADDRESS, CREATOR_ADDRESS)) or \
+        (CREATOR_ADDRESS in S and a == v.creator)
